@@ -36,11 +36,12 @@ fn gen_plan(ctx: &mut Ctx) -> Plan {
     let mut attempts = Vec::new();
     let mut horizon_ms: u64 = 0;
     for _ in 0..n {
-        let kind = match ctx.tape.weighted(&[3, 3, 2, 1]) {
+        let kind = match ctx.tape.weighted(&[6, 6, 4, 2, 1]) {
             0 => AttemptKind::Succeed,
             1 => AttemptKind::FailConnect,
             2 => AttemptKind::FailAtRequest(ctx.pick(7)),
-            _ => AttemptKind::CloseAtRequest(ctx.pick(7)),
+            3 => AttemptKind::CloseAtRequest(ctx.pick(7)),
+            _ => AttemptKind::Panic,
         };
         // job duration: 0 .. 3 periods (7 requests, each with a send and a reply delay)
         let dur_ms = match ctx.tape.weighted(&[4, 2, 1, 1]) {
@@ -95,7 +96,8 @@ fn run(ctx: &mut Ctx) -> Verdict {
     let period = plan.period;
     let ((), junos) = with_shared(ctx, junos, vec![0], |sh| {
         let conn = connector(sh.clone());
-        rt.block_on(async move {
+        let obs_outer = obs2.clone();
+        let run = std::panic::catch_unwind(std::panic::AssertUnwindSafe(|| rt.block_on(async move {
             let epoch = Instant::now();
             let obs3 = obs2.clone();
             let sig_task = tokio::spawn(async move {
@@ -129,7 +131,14 @@ fn run(ctx: &mut Ctx) -> Verdict {
             });
             drop(o);
             sig_task.abort();
-        });
+        })));
+        if let Err(p) = run {
+            // the daemon loop itself unwound: the process would have died
+            let msg = p.downcast_ref::<String>().cloned().or_else(|| p.downcast_ref::<&str>().map(|s| (*s).to_string())).unwrap_or_default();
+            let mut o = obs_outer.lock().unwrap();
+            o.exit_ns = Some(0);
+            o.exit = Some(format!("the daemon loop panicked: {msg}"));
+        }
     });
     uninstall();
     drop(rt);
@@ -240,7 +249,7 @@ pub static C19: PropSpec = PropSpec {
     runs: |t| if t == Tier::Thorough { 2_000_000 } else { 15_000 },
     enumerated: |t| super::c19_proc::scenarios(t == Tier::Thorough),
     run,
-    rule: "enumerated (process part): the agent executable (argument parsing, real signal handlers, real clock) with -f {0, 1, 45, 100, 3600, 86400} against a closed loopback port; -f 0 must make exactly one attempt, not start the loop and exit by itself with a failure status; a daemon must run its first job at once, announce 60 s first and then delays that never shrink, grow while below max(60 s, period) and never exceed it (2-4 failing jobs, each further one started by a real SIGHUP within 10 s), and exit with status 0 within 10 s of a real SIGTERM / SIGINT. seeded: the real Loop::start with a period from {1 s .. 1 day} (below and above the 60 s initial back-off); 2-10 (thorough: 2-16) scripted connection attempts (succeed against FakeJunos / fail at connect / rpc-error or disconnect at a seeded request) with job durations 0 .. 3 periods of virtual time; 0-3 SIGHUPs and a final SIGINT or SIGTERM raised (libc::raise) at seeded virtual instants, while waiting and while a job runs. Oracle over the timeline of connection attempts and job ends: first run at once; after success one period; after the c-th consecutive failure a delay of 60 s first, never shrinking, growing while below the cap, never above max(60 s, period), never zero without SIGHUP; SIGHUP while waiting => run at that instant; SIGINT/SIGTERM while waiting => clean exit at that instant, no later attempt. Non-trivial = at least three attempts; distinct = distinct event-log hash",
+    rule: "enumerated (process part): the agent executable (argument parsing, real signal handlers, real clock) with -f {0, 1, 45, 100, 3600, 86400} against a closed loopback port; -f 0 must make exactly one attempt, not start the loop and exit by itself with a failure status; a daemon must run its first job at once, announce 60 s first and then delays that never shrink, grow while below max(60 s, period) and never exceed it (2-4 failing jobs, each further one started by a real SIGHUP within 10 s), and exit with status 0 within 10 s of a real SIGTERM / SIGINT. seeded: the real Loop::start with a period from {1 s .. 1 day} (below and above the 60 s initial back-off); 2-10 (thorough: 2-16) scripted connection attempts (succeed against FakeJunos / fail at connect / rpc-error or disconnect at a seeded request / the job panics) with job durations 0 .. 3 periods of virtual time; 0-3 SIGHUPs and a final SIGINT or SIGTERM raised (libc::raise) at seeded virtual instants, while waiting and while a job runs. Oracle over the timeline of connection attempts and job ends: first run at once; after success one period; after the c-th consecutive failure a delay of 60 s first, never shrinking, growing while below the cap, never above max(60 s, period), never zero without SIGHUP; SIGHUP while waiting => run at that instant; SIGINT/SIGTERM while waiting => clean exit at that instant, no later attempt. Non-trivial = at least three attempts; distinct = distinct event-log hash",
     components: &[
         ("agent executable: bin/bgpfu-junos-agent.rs, cli.rs (Frequency parsing, one-shot / daemon selection), task.rs loop with tokio's real signal handlers and the real clock", "real, enumerated scenarios only: target/release/agentbin as a child process"),
         ("junos-agent task.rs (Loop::start, Updater::run), netconf/mod.rs", "real"),
